@@ -139,6 +139,8 @@ def gen_circuit(rng: random.Random, cfg: Dict[str, Any], depth: int = 0) -> Dict
     for _ in range(n):
         if depth < cfg["max_depth"] and rng.random() < cfg["p_sub"]:
             step = {"sub": gen_circuit(rng, cfg, depth + 1)}
+            if rng.random() < 0.25:
+                step["as_structure"] = True
             if steps and cfg.get("p_block_rel") and rng.random() < cfg["p_block_rel"]:
                 # the sub-circuit itself carries an explicit relation to an earlier entry of this level
                 step["rel"] = [rng.choice(cfg["block_rel_types"]), rng.randrange(len(steps))]
